@@ -33,11 +33,85 @@ var schemasJSON []byte
 type M = map[string]any
 
 type entry struct {
-	ID     int    `json:"id"`
-	Kind   string `json:"kind"`
-	Schema M      `json:"schema"`
-	Method string `json:"method"`
-	At     string `json:"at"`
+	ID       int    `json:"id"`
+	Kind     string `json:"kind"`
+	Schema   M      `json:"schema"`
+	Method   string `json:"method"`
+	At       string `json:"at"`
+	In       string `json:"in"`
+	Style    string `json:"style"`
+	Explode  bool   `json:"explode"`
+	Required bool   `json:"required"`
+}
+
+// members of an object-shaped parameter instance, in the order they are written
+type member struct{ name, text string }
+
+// objInstances: every subset of {p, q} with valid and invalid texts per member (no member at all is
+// the absent parameter and is sent separately).
+func objInstances() [][]member {
+	ps := []string{"", "0", "5", "6", "x"}
+	qs := []string{"", "a", "ab", "abc"}
+	var out [][]member
+	for _, p := range ps {
+		for _, q := range qs {
+			var ms []member
+			if p != "" {
+				ms = append(ms, member{"p", p})
+			}
+			if q != "" {
+				ms = append(ms, member{"q", q})
+			}
+			if len(ms) > 0 {
+				out = append(out, ms)
+				if len(ms) == 2 {
+					out = append(out, []member{ms[1], ms[0]})
+				}
+			}
+		}
+	}
+	return out
+}
+
+// renderObj: the request that carries the members in the given cell (OpenAPI 3.0.3 style table).
+func renderObj(e entry, ms []member) (rawurl string, hdr http.Header) {
+	hdr = http.Header{}
+	at := fmt.Sprintf("http://x/o%d", e.ID)
+	var flat, kv []string
+	for _, m := range ms {
+		flat = append(flat, m.name, m.text)
+		kv = append(kv, m.name+"="+m.text)
+	}
+	switch e.In {
+	case "query":
+		switch {
+		case e.Style == "deepObject":
+			var qs []string
+			for _, m := range ms {
+				qs = append(qs, "v%5B"+m.name+"%5D="+m.text)
+			}
+			return at + "?" + strings.Join(qs, "&"), hdr
+		case e.Explode:
+			return at + "?" + strings.Join(kv, "&"), hdr
+		default:
+			return at + "?v=" + strings.Join(flat, ","), hdr
+		}
+	case "header":
+		if e.Explode {
+			hdr.Set("V", strings.Join(kv, ","))
+		} else {
+			hdr.Set("V", strings.Join(flat, ","))
+		}
+		return at, hdr
+	case "cookie":
+		hdr.Set("Cookie", "v="+strings.Join(flat, ","))
+		return at, hdr
+	default: // path
+		if e.Explode {
+			return at + "/" + strings.Join(kv, ","), hdr
+		}
+		return at + "/" + strings.Join(flat, ","), hdr
+	}
 }
 
 var pool = []string{`null`, `true`, `false`, `0`, `1`, `2`, `3`, `4`, `5`, `6`, `10`, `-1`, `-2`, `-5`, `0.5`, `1.5`, `2.5`, `-0.5`, `-1.5`, `1.0`, `2e0`, `0.25`, `0.75`, `1e2`, `2.0000001`, `9007199254740993`,
@@ -158,6 +232,10 @@ func main() {
 			for e := range ch {
 				var evals, nontriv, amb, validN, invalidN, derived int64
 				rec := pairRec{ID: e.ID, Schema: e.Schema}
+				if e.Kind == "objparam" {
+					checkObjParam(srv, vd, e)
+					continue
+				}
 				texts := pool
 				if e.Kind != "body" {
 					texts = paramTexts
@@ -342,6 +420,67 @@ func main() {
 		_ = os.WriteFile(*pairsOut, b, 0o644)
 	}
 	drv.Flush()
+}
+
+// checkObjParam: an object-shaped parameter in one cell, every subset of its members and no member.
+func checkObjParam(srv server, vd *refval.Validator, e entry) {
+	var evals int64
+	cell := fmt.Sprintf("%s/%s/explode=%v", e.In, e.Style, e.Explode)
+	judge := func(ms []member, want bool, inst string) {
+		evals++
+		u, hdr := renderObj(e, ms)
+		if ms == nil {
+			u, hdr = fmt.Sprintf("http://x/o%d", e.ID), http.Header{}
+		}
+		status, handled, respBody, pan := srv.do("GET", u, hdr, "")
+		accepted := status == 501
+		cl := ""
+		switch {
+		case pan != nil:
+			cl = "server-panic"
+			respBody = fmt.Sprint(pan)
+		case accepted != handled:
+			cl = "status-and-handler-flag-disagree"
+		case accepted && !want:
+			cl = "invalid-instance-reached-the-handler"
+		case !accepted && want:
+			cl = "valid-instance-refused"
+		case !accepted && (status < 400 || status > 499):
+			cl = "refusal-is-not-4xx"
+		}
+		if cl != "" {
+			sj, _ := json.Marshal(e.Schema)
+			drv.Violation(map[string]string{"class": cl + "/object-parameter/" + cell, "verdict": cl, "in": e.In, "cell": cell, "parameter_required": fmt.Sprint(e.Required), "schema_kind": "object-parameter"},
+				len(sj)+len(inst), kase{"objparam " + cell + fmt.Sprintf(" required=%v", e.Required), e.Schema, inst, fmt.Sprint("valid=", want), status, handled, respBody})
+		}
+	}
+	if e.In != "path" {
+		judge(nil, !e.Required, "(parameter absent)")
+	}
+	for _, ms := range objInstances() {
+		obj := M{}
+		for _, m := range ms {
+			if m.name == "p" {
+				if numberLiteral.MatchString(m.text) {
+					obj["p"] = json.Number(m.text)
+				} else {
+					obj["p"] = m.text // not a number: wrong type
+				}
+			} else {
+				obj[m.name] = m.text
+			}
+		}
+		want, ambiguous := vd.Valid(e.Schema, obj)
+		if ambiguous {
+			continue
+		}
+		b, _ := json.Marshal(obj)
+		judge(ms, want, string(b))
+	}
+	drv.Eval(evals)
+	drv.NontrivialN(evals)
+	drv.Stat("object_parameter_requests", evals)
+	drv.Stat("object_parameter_operations", 1)
 }
 
 // refsOf: names of the referenced variants of a sum, in order.
